@@ -175,13 +175,27 @@ class BehavioralRTLIRToVVisitorL1( bir.BehavioralRTLIRNodeVisitor ):
       raise VerilogTranslationError( s.blk, node,
         f"name {name} is a SystemVerilog reserved keyword or not a legal identifier!" )
 
+  def get_block_label( s, node ):
+    """Return the label of the always block of upblk `node`.
+
+    Named blocks share the name space of the module with its signals and
+    instances (IEEE 1800-2017 3.13): a block that has the name of a member
+    of its component gets another label."""
+    label = node.name
+    m = getattr( node, 'component', None )
+    if m is not None:
+      others = { blk.__name__ for blk in m.get_update_blocks() }
+      while hasattr( m, label ) or ( label != node.name and label in others ):
+        label += '_blk'
+    return label
+
   #-----------------------------------------------------------------------
   # visit_CombUpblk
   #-----------------------------------------------------------------------
 
   def visit_CombUpblk( s, node ):
     """Return the Verilog representation of statements inside it."""
-    blk_name = node.name
+    blk_name = s.get_block_label( node )
     src      = []
     body     = []
     s.upblk_type = s.COMBINATIONAL
@@ -206,7 +220,7 @@ class BehavioralRTLIRToVVisitorL1( bir.BehavioralRTLIRNodeVisitor ):
 
   def visit_SeqUpblk( s, node ):
     """Return the Verilog representation of statements inside it."""
-    blk_name = node.name
+    blk_name = s.get_block_label( node )
     src      = []
     body     = []
     s.upblk_type = s.SEQUENTIAL
